@@ -84,6 +84,8 @@ def draw_profile(rng, prop, faults, tier='quick'):
     p['groups'] = sorted(g for g in groups if rng.random() < 0.75)
     # index kinds: lists, integer arrays and boolean masks next to the basic ones (copies, not views)
     p['adv_index'] = rng.random() < 0.6
+    # a few runs also make one or two writes of LARGE arrays (the array size is a dimension too)
+    p['big_arrays'] = rng.random() < 0.05
     return p
 
 
@@ -1380,6 +1382,21 @@ class Gen(object):
             op['sites'] = [self.some_sites() if self.rng.random() < 0.7 else None for _ in range(op['n'])]
         return op
 
+    def g_big_write(self):
+        r = self.rng
+        nw = r.randint(4, 16)
+        n = r.choice([66000, 70000, 131100, 140000, 200000])
+        far = [0, n - 1, n // 2, 65535, 65536, 65537, 131071, 131072]
+        op = {'op': 'big_write', 'n': n, 'fmt': [r.random() < 0.7, nw, r.randint(0, nw - 1)],
+              'overflow': r.choice(['saturate', 'saturate', 'wrap']), 'via': r.choice(['set_val', 'set_val', 'setitem']),
+              'over': r.sample(far, r.randint(0, 3)), 'under': []}
+        if op['fmt'][0] and r.random() < 0.6:
+            rest = [q for q in far if q % n not in [o_ % n for o_ in op['over']]]
+            op['under'] = r.sample(rest, r.randint(1, min(3, len(rest))))
+        if not op['over'] and not op['under']:
+            op['over'] = [0, n - 1]
+        return op
+
     def g_cb_replace(self):
         r = self.rng
         k, i = self.pick(lambda o: bool(o.callbacks))
@@ -1555,6 +1572,8 @@ class Gen(object):
                 add(3, self.g_cb_attach)
                 add(5, self.g_provoke)
                 add(2, self.g_cb_replace)
+            if p.get('big_arrays'):
+                add(2, self.g_big_write)
             if F & {'F3', 'F4', 'F8'}:
                 add(4, self.g_cb_arm)
             if F & {'F3', 'F8'}:
